@@ -18,6 +18,7 @@ structure St where
   det : DW Nat String := ⟨0, 0, []⟩
   ext : CW String := ⟨[]⟩
   chg : CW String := ⟨[]⟩
+  locked : Bool := false
 
 def field (pre : String) (ws : List String) : String :=
   match ws.find? (·.startsWith pre) with
@@ -32,7 +33,7 @@ def childOf (seq : Array String) : Nat → String := fun i => seq.getD i "?"
 
 def view (s : St) : String :=
   match s.typ with
-  | "deterministic" => s!"e={join s.det.entries} last={s.st.getD s.det.last "?"}"
+  | "deterministic" => s!"e={join s.det.entries} last={if s.locked then "-" else s.st.getD s.det.last "?"}"
   | "bip44" => s!"e={join s.ext.entries} last=- c={join s.chg.entries}"
   | _ => s!"e={join s.ext.entries} last=-"
 
@@ -54,11 +55,15 @@ def step (s : St) (op impl : String) : St × String × Verdict :=
       -- (and, for xpub, that the watch-only wallet derives the seed wallet's external chain)
       let ok := impl.endsWith (view s') && !(impl.splitOn " ").contains "bip44=DIFFERENT"
       (s', if ok then impl else "ok … " ++ view s' ++ " (bip44=same)", .fail)
-  | "gen" :: n :: rest =>
+  | g :: n :: rest =>
+    if g == "gen" || g == "ggen" then
       match n.toNat? with
       | none => (s, "bad-op", .unknown)
       | some n =>
         if s.typ == "collection" then (s, "ok new=- " ++ view s, .unknown)
+        -- a locked deterministic wallet refuses to derive directly (ErrWalletEncrypted); through
+        -- GuardUpdate (`ggen`) it derives exactly what the unlocked wallet would
+        else if s.typ == "deterministic" && s.locked && g == "gen" then (s, "err " ++ view s, .unknown)
         else if s.typ == "deterministic" then
           let d := generate (stepOf s.seq) s.det n
           let s' := { s with det := d }
@@ -71,10 +76,14 @@ def step (s : St) (op impl : String) : St × String × Verdict :=
           let c := cgen (childOf s.seq) s.ext n
           let s' := { s with ext := c }
           (s', s!"ok new={join (c.entries.drop s.ext.entries.length)} {view s'}", .fail)
-  | ["scan", n, ea, ca] =>
+    else if (g == "scan" || g == "gscan") && rest.length == 2 then
+      let ea := rest.getD 0 "-"
+      let ca := rest.getD 1 "-"
       match n.toNat?, (items ea).mapM (fun (x : String) => x.toNat?), (items ca).mapM (fun (x : String) => x.toNat?) with
       | some n, some ea, some ca =>
         if s.typ == "collection" then (s, "err " ++ view s, .unknown)
+        else if s.typ == "deterministic" && s.locked && g == "scan" then
+          (s, (if n = 0 then "ok new=- " else "err ") ++ view s, .unknown)
         else if s.typ == "deterministic" then
           let base := s.det.entries.length
           let act := activeList ea base n
@@ -91,16 +100,19 @@ def step (s : St) (op impl : String) : St × String × Verdict :=
           let s' := { s with ext := e', chg := c' }
           (s', s!"ok new={join ret} {view s'}", .fail)
       | _, _, _ => (s, "bad-op", .unknown)
-  | ["reload"] => (s, "ok " ++ view s, .fail)
-  | ["relock"] => (s, "ok " ++ view s, .fail)
-  | ["verify"] => (s, "ok consistent", .fail)
-  | ["addkeys", _] =>
+    else if g == "addkeys" && rest.isEmpty then
       -- collection: the entries are exactly the inserted keys, in order
       let iw := impl.splitOn " "
       let want := items (field "want=" iw)
       let e' := s.ext.entries ++ want
       let s' := { s with ext := ⟨e'⟩ }
       (s', s!"ok new={join want} want={join want} {view s'}", .fail)
+    else (s, "bad-op", .unknown)
+  | ["reload"] => (s, "ok " ++ view s, .fail)
+  | ["relock"] => (s, "ok " ++ view s, .fail)
+  | ["lock"] => let s' := { s with locked := true }; (s', "ok " ++ view s', .fail)
+  | ["unlock"] => let s' := { s with locked := false }; (s', "ok " ++ view s', .fail)
+  | ["verify"] => (s, "ok consistent", .fail)
   | _ => (s, "bad-op", .unknown)
 
 end Sky.C17
